@@ -180,7 +180,10 @@ def tr_node(node, flags):
             return f"(.behind {sets[0]})"
         return f"(.behind ({' ++ '.join(sets)}))"
     if op == ASSERT_NOT:
-        raise Unsupported("negative look-around")
+        direction, p = av
+        if direction == 1:
+            return f"(.nahead {paren(tr_seq(p, flags))})"
+        raise Unsupported("negative look-behind")
     if op == AT:
         if av == AT_BEGINNING:
             if flags & re.MULTILINE:
